@@ -49,6 +49,16 @@ Theorem split_no_amplification : forall s : str,
   (length (concat (quoted_str_split s)) <= length s)%nat.
 Proof. exact QuotedProofs.split_no_amplification. Qed.
 
+(** Lines compose. After ANY prefix [a] that leaves the splitter outside quotes and outside an
+    escape (every complete encoded message does; so does any hand-typed line whose quotes are
+    closed), a space starts afresh: whatever follows cannot change the tokens of [a], and the
+    tokens that follow are those of the rest alone. So appending arguments to a command never
+    alters the command or the arguments before them. *)
+Theorem arguments_compose : forall a b : str,
+  quotes (run_state split_init a) = QNo -> escaped (run_state split_init a) = 0 ->
+  quoted_str_split (a ++ c_space :: b) = quoted_str_split a ++ quoted_str_split b.
+Proof. exact split_compose. Qed.
+
 (** UTF-8: what the server decodes is what the client's string was. *)
 Theorem utf8_decode_encode : forall s : str, all_scalar s = true -> utf8_decode (utf8_encode s) = Some s.
 Proof. exact utf8_roundtrip. Qed.
@@ -601,6 +611,11 @@ Proof. split; [discriminate|vm_compute; reflexivity]. Qed.
 Example ex_invents_nothing :
   quoted_str_split [112; 32; 34; 97; 32; 92; 98] = [[112]; [97; 32; 98]].
 Proof. vm_compute. reflexivity. Qed.
+Example ex_compose :
+  let a := [112; 32; 39; 97; 32; 98; 39; 32; 92; 92] in
+  quotes (run_state split_init a) = QNo /\ escaped (run_state split_init a) = 0 /\
+  quoted_str_split a = [[112]; [97; 32; 98]; [92]].
+Proof. repeat split; vm_compute; reflexivity. Qed.
 Example ex_escaped : escaped (run_state split_init [92]) = 1.
 Proof. vm_compute. reflexivity. Qed.
 Example ex_utf8 : all_scalar [97; 233; 8364; 128512; 1114111] = true
